@@ -3,7 +3,7 @@
    leave the repository (strconv) are look-ups in an oracle table shipped with
    each case. *)
 From Redact Require Export Bytes Utf8.
-From Coq Require Export String.
+
 Open Scope Z_scope.
 
 (* ---------- write requests ---------- *)
